@@ -545,6 +545,10 @@ impl<'a, S: BitmapSlice> ZeroCopyReader for ZcReader<'a, S> { }
                ensures=['r == (Context { uid: source.uid, gid: source.gid, pid: source.pid as i32 }) // [C02.ctx.header]'], props=['C02'])]),
         Group('impl Attr {', [Fn(ABI, 'impl Attr', 'with_flags', ensures=['r == attr_of(st, flags) // [C03.attr.fields]'], props=['C03'])]),
         Group('impl From<stat64> for Attr {', [Fn(ABI, 'impl From<stat64> for Attr', 'from', ensures=['r == attr_of(st, 0)'], props=['C03'])]),
+        Group('impl From<statvfs64> for Kstatfs {', [
+            Fn(ABI, 'impl From<statvfs64> for Kstatfs', 'from', ensures=['r == kstatfs_of(st) // [C03.statfs.fields]'], props=['C03'])]),
+        Group('impl From<SetattrIn> for stat64 {', [
+            Fn(ABI, 'impl From<SetattrIn> for stat64', 'from', ensures=['r == stat_of_setattr(setattr) // [C02.setattr.fields]'], props=['C02'])]),
         Group('impl From<Entry> for EntryOut {', [
             Fn(FSMOD, 'impl From<Entry> for fuse::EntryOut', 'from', sig_subst=[('fuse::EntryOut', 'EntryOut')],
                ensures=['r == entry_out(entry) // [C03.entry.fields]'], props=['C03'])]),
